@@ -7,6 +7,7 @@ import time
 import traceback
 import concurrent.futures as cf
 
+from . import l2 as L2
 from . import trace as T
 from .common import WORK, ToolError, run_tlc
 from .fs import FsRun, reqs_for, abs_result
@@ -24,7 +25,12 @@ def run_scenario(sess, sc, first=False):
     if sc.get("warm"):
         run_program(sess, {"keys": {}, "blobs": {}, "steps": sc["warm"]})
     fr = FsRun(sess.dir, sess)
-    fr.begin()
+    # every visible entry must have its content, unless this scenario itself removes content by
+    # address (remove_hash, remove_fully, clear) or its warm-up did
+    unres = {"remove_hash", "remove_fully", "clear"}
+    fr.begin(resolvable=sc.get("resolvable", True)
+             and not any(st["op"] in unres for st in sc["procs"])
+             and not any(st["op"] in unres for st in sc.get("warm", [])))
     plan = sc["plan"]
     procs = sc["procs"]
     replies = {}
@@ -181,6 +187,7 @@ def _run_fs_batch(args):
     fcases = set()
     hists = []
     touches = []
+    l2runs = []
     try:
         infos = []
         for i, sc in enumerate(scenarios):
@@ -191,6 +198,11 @@ def _run_fs_batch(args):
                 hists.append(history_of(inf["events"]))
             if sc.get("allowed"):
                 touches += touch_events(sess, sc, inf["events"])
+            # L2 for every run in the thorough tier, for every third one in the quick tier
+            if os.environ.get("VERIF_TIER_EFFECTIVE", "quick") != "quick" or (len(l2runs) % 3 == 0):
+                l2runs.append(L2.l2_events(inf["events"]))
+            else:
+                l2runs.append(None)
             infos.append({"calls": [{k: c[k] for k in ("name", "area", "file", "mut", "ret", "count", "p")}
                                     for c in inf["calls"]], "results": inf["results"], "beyond": inf.get("beyond")})
             fcases.add(json.dumps(inf["case"]))
@@ -207,6 +219,20 @@ def _run_fs_batch(args):
                     "accepted": finfo["accepted"] and ainfo["accepted"], "infos": infos,
                     "cases": sorted(sess.cases) + [("fs", c) for c in sorted(fcases)]})
         divs = list(fdivs)
+        if any(l2runs):
+            # L2: the effect-carrying calls as behaviours of CacacheFS.tla
+            l2info, drifts = L2.validate_l2(l2runs, os.path.join(bdir, "trace"), os.path.join(bdir, "tlc"))
+            out["states"] += l2info["states"]
+            out["transitions"] += l2info["transitions"]
+            out["l2_runs"] = l2info["runs"]
+            out["l2_drift"] = len(drifts)
+            for dr in drifts:
+                # (after an injected fault the run-time may legitimately deviate from the modelled
+                # error path - async-std re-sends a buffered record when the file is dropped - so
+                # drift in fault runs never gates)
+                divs.append({"what": "l2", "rule": "NotAStepOfCacacheFS", "line": None, "event": dr["event"],
+                             "props": [] if mode == "fault" else L2.drift_props(dr["event"]),
+                             "l2_trace": dr.get("file") or l2info["trace"], "run": dr["run"]})
         if touches:
             lp = os.path.join(bdir, "touch.ndjson")
             with open(lp, "w") as f:
@@ -246,7 +272,8 @@ def _run_fs_batch(args):
             with open(os.path.join(bdir, "scenarios.json"), "w") as f:
                 json.dump({"mode": mode, "resolvable": resolvable, "scenarios": scenarios}, f)
             for d in divs:
-                d["trace"] = (finfo["trace"] if d.get("what") == "rule" else
+                d["trace"] = (d.get("l2_trace") if d.get("what") == "l2" else
+                              finfo["trace"] if d.get("what") == "rule" else
                               d.get("serial_trace") if d.get("what") == "serial" else path)
                 d["programs"] = os.path.join(bdir, "scenarios.json")
         out["divs"] = divs
@@ -289,6 +316,8 @@ def run_fs_batches(name, batches, mode, resolvable=True, jobs=8):
         agg["infos"] += o["infos"]
         agg["histories"] = agg.get("histories", 0) + o.get("histories", 0)
         agg["touches"] = agg.get("touches", 0) + o.get("touches", 0)
+        agg["l2_runs"] = agg.get("l2_runs", 0) + o.get("l2_runs", 0)
+        agg["l2_drift"] = agg.get("l2_drift", 0) + o.get("l2_drift", 0)
     return agg
 
 
@@ -420,9 +449,11 @@ def keyed_op_scenarios(rng, tier, lanes=("S", "Aa", "Ta")):
             else:
                 st = {"op": "remove_fully", "lane": lane, "key": key}
             cont = []
-            for l2 in ("S", "Aa", "Ta"):
+            for l2 in (("S", "Aa", "Ta") if tier != "quick" else (rng.choice(["S", "As", "Ts"]), rng.choice(["Aa", "Ta"]))):
                 cont += [{"op": "metadata", "lane": l2, "key": key}, {"op": "metadata", "lane": l2, "key": other},
-                         {"op": "read", "lane": l2, "key": key}, {"op": "read", "lane": l2, "key": other}]
+                         {"op": "read", "lane": l2, "key": key}]
+                if tier != "quick":
+                    cont.append({"op": "read", "lane": l2, "key": other})
             cont += [{"op": "list", "lane": "S"},
                      {"op": "write", "lane": rng.choice(["S", "Aa", "Ta"]), "key": key, "data": d_next, "algo": "sha256"},
                      {"op": "metadata", "lane": "S", "key": key}, {"op": "read", "lane": "Aa", "key": key},
